@@ -326,9 +326,10 @@ def _step(env, ob, make_doc, probe=False):
     try:
         out = _dispatch(d, ob['disp'], wire.encode(doc), ctx)
     except TypeError as e:
-        if ob.get('first') != 'bad':
+        if not (isinstance(doc, dict) and doc.get('method') == 'bad'):
             raise Violation('raised:' + type(e).__name__, doc)
-        out = None               # tolerated: the method broke its side of the contract; what matters is what is left behind
+        out = None               # tolerated: the method `bad` broke its side of the contract (a result without JSON form);
+        #                          what matters is what such a request leaves behind
     except Exception as e:
         raise Violation('raised:' + type(e).__name__, doc)
     with env.untraced():
